@@ -33,7 +33,7 @@ PROPS = {
     'C14': P('proof', ['C14'], 'support/error contract decided over all 3276 triples by `decide` on the model + exhaustive correspondence of all triples'),
     'C15': P('proof', ['C15'], 'Unspecified resolution: mpv table for all sizes, label theorems + exhaustive correspondence + content oracle'),
     'C16': P('proof', ['C16'], 'neutral axis and anchors: exhaustive/evaluated theorems + correspondence on every luma code + search'),
-    'C17': P('proof', ['C17', 'C17b'], 'HSL: range, accuracy and anchor theorems + correspondence + f64 hexcone oracle', partial=['round trip LinearRgb -> Hsl -> LinearRgb within 1e-5: not proved yet; correspondence + oracle']),
+    'C17': P('proof', ['C17', 'C17b', 'C17c', 'C17d', 'C17e', 'C17f'], 'HSL: range, accuracy, anchor and round-trip theorems for every pixel of the unit cube + correspondence + f64 hexcone oracle'),
     'C18': P('proof', ['C18'], 'fast math helpers: totality for every bit pattern, oddness, range theorems; accuracy theorems as listed + correspondence + search', partial=['cbrtf: proved in relative form (2^-24 + 1e-11) for every normal argument; bit-exact oddness not proved', 'powf 2.5e-4+8e-6|y|, expf 1e-5 and its overflow/underflow ranges: not proved; correspondence + oracle (all 2^32 arguments in the thorough tier)']),
     'C19': P('proof', ['C19'], '3x3 algebra: structural, accuracy, identity and invert theorems for both formats + correspondence f32/f64 + exact oracle', partial=[]),
     'C20': P('proof', ['C20'], 'build configuration: feature-resolution theorem on the regenerated manifests; every model theorem is stated for both fma values; correspondence and search under four builds',
